@@ -26,6 +26,11 @@ type Mismatch struct {
 	Impl  string `json:"impl"`
 	Model string `json:"model"`
 	Where string `json:"where,omitempty"`
+	// Kind: "property" — the disagreement is on an observable the property determines (a failing
+	// input for the property); "correspondence" — implementation and model differ, but only on
+	// observables the property does not constrain (the tie is broken, no failing input yet);
+	// "oracle" — a property oracle failed on the implementation's own output.
+	Kind string `json:"kind,omitempty"`
 }
 
 // RunStats is what one correspondence run measured.
